@@ -16,7 +16,9 @@ namespace PM.C15
 abbrev Dbl := Rat
 abbrev Text := List Char
 
-/-- which of the four repairs are present -/
+/-- which of the repairs to the component / experiment codecs are present (the two further
+    repairs, `serialize_matrix` on symbolic matrices and the `compress` keyword of the detector
+    overloads of `serialize`, have their own as-found definitions: `encMatAsFound`, `kwAccepted`) -/
 structure Cfg where
   /-- `deserialize_unitary` reads `name` and `use_polarization` back -/
   unitaryFields : Bool
@@ -93,8 +95,8 @@ def encodeParam (cfg : Cfg) (ev : String → List Sub → Dbl) : Param → PbPar
   | .var n (some v) => ⟨.real v, n, []⟩
   | .var n none => ⟨.symbol n, n, []⟩
   | .expr e subs =>
-    if subs.all (·.val.isSome) && (!cfg.exprFix || subs.isEmpty) then
-      ⟨.real (ev e subs), e, []⟩                   -- `if param.defined:` comes first
+    if !cfg.exprFix && subs.all (·.val.isSome) then
+      ⟨.real (ev e subs), e, []⟩                   -- as found: `if param.defined:` comes first
     else
       ⟨.expression ("(" ++ e ++ ")"), e, subs.map (encodeSub cfg)⟩
 
@@ -162,6 +164,13 @@ def toParam (slot : String) : DVal → Option Param
   | .expr e s => some (.expr e s)
   | .sym _ => none            -- sympy value: outside the model
 
+/-- a slot that received `None` makes the constructor build `Parameter(slot)`: one more
+    `Parameter` object, outside the name table -/
+def bump (slot : String) (d : DVal) (st : St) : St :=
+  match d with
+  | .none_ => { st with allocs := slot :: st.allocs }
+  | _ => st
+
 def decSlot (st : St) : Option PbParam → Option (DVal × St)
   | none => some (.none_, st)
   | some p => decodeParam st p
@@ -174,7 +183,7 @@ def decSlots : List String → List (Option PbParam) → St → Option (List Par
     | some (d, st1) =>
       match toParam n d with
       | some p =>
-        match decSlots ns ws.tail st1 with
+        match decSlots ns ws.tail (bump n d st1) with
         | some (rest, st2) => some (p :: rest, st2)
         | none => none
       | none => none
@@ -215,6 +224,16 @@ def rowsCols {α} (rows : List (List α)) : Nat × Nat :=
 def encMat : Mat → PbMat
   | .num rows => ⟨(rowsCols rows).1, (rowsCols rows).2, .numeric rows.flatten⟩
   | .sym rows => ⟨(rowsCols rows).1, (rowsCols rows).2, .symbolic rows.flatten⟩
+
+/-- `sympy.Matrix.vec()`: the columns stacked (column-major) -/
+def colMajor (rows : List (List String)) : List String :=
+  (List.range (rowsCols rows).2).flatMap fun j => rows.map fun r => r.getD j ""
+
+/-- `serialize_matrix` as found: the symbolic branch iterates `m.vec()`, the numeric one
+    `np.nditer(m)`; both readers fill rows.  (`encMat` is the repaired writer: `m.flat()`.) -/
+def encMatAsFound : Mat → PbMat
+  | .num rows => ⟨(rowsCols rows).1, (rowsCols rows).2, .numeric rows.flatten⟩
+  | .sym rows => ⟨(rowsCols rows).1, (rowsCols rows).2, .symbolic (colMajor rows)⟩
 
 /-- the row-filling loop of `_deserialize_numeric/_symbolic` -/
 def chunkGo {α} (n : Nat) : List α → List α → List (List α)
@@ -366,7 +385,7 @@ def decLeaf (cfg : Cfg) (wk : WKind) (conv : Nat) (slots : List (Option PbParam)
       match decSlot st1 (slots.head?.join) with
       | some (dphi, st2) =>
         match toParam "phi" dphi, (match dme with | .none_ => some (.fixed 0) | d => toParam "max_error" d) with
-        | some phi, some me => fin .ps (some ([phi, me], st2))
+        | some phi, some me => fin .ps (some ([phi, me], bump "phi" dphi st2))
         | _, _ => none
       | none => none
     | none => none
@@ -402,8 +421,12 @@ mutual
       if n = 0 then none else
       match decItems cfg n comps stIn with
       | some (items, stOut) =>
-        some (.circ n (if name = "" then "CPLX" else name) items,
-              if share then stOut else ⟨st.tbl, stOut.allocs⟩)
+        -- `Circuit.add` refuses a second `Parameter` object under a name the circuit already
+        -- holds: the objects constructed while this circuit was read must have distinct names
+        if (stOut.allocs.take (stOut.allocs.length - st.allocs.length)).Nodup then
+          some (.circ n (if name = "" then "CPLX" else name) items,
+                if share then stOut else ⟨st.tbl, stOut.allocs⟩)
+        else none
       | none => none
     | .leaf wk conv slots, st => decLeaf cfg wk conv slots st
     | .permutation l, st => if isPerm l then some (.perm l, st) else none
@@ -451,6 +474,17 @@ mutual
     | .cons off c rest => .cons off c.norm rest.norm
 end
 
+mutual
+  /-- every parameter slot of the tree, in reading order (used to state the witnesses) -/
+  def Comp.params : Comp → List Param
+    | .leaf _ ps => ps
+    | .circ _ _ items => items.params
+    | _ => []
+  def Items.params : Items → List Param
+    | .nil => []
+    | .cons _ c rest => c.params ++ rest.params
+end
+
 /-! ## Well-formedness (the objects the constructors accept, minus the stated boundaries) -/
 
 /-- current value of every variable name -/
@@ -463,6 +497,11 @@ def Param.WF (env : Env) : Param → Prop
   | .fixed _ => True
   | .var n v => n ≠ "" ∧ env n = some v
   | .expr _ subs => subs ≠ [] ∧ ∀ s ∈ subs, s.WF env
+
+/-- a rectangular matrix with at least one row and one column -/
+def Mat.WFrect : Mat → Prop
+  | .num rows => rows ≠ [] ∧ ∃ n, 0 < n ∧ ∀ r ∈ rows, r.length = n
+  | .sym rows => rows ≠ [] ∧ ∃ n, 0 < n ∧ ∀ r ∈ rows, r.length = n
 
 def Mat.WFnum : Mat → Prop
   | .num rows => 0 < rows.length ∧ ∀ r ∈ rows, r.length = rows.length
@@ -647,6 +686,16 @@ def knownTags : List Text :=
   ["Matrix", "ACircuit", "Component", "Experiment", "Herald", "Port", "BasicState", "StateVector",
    "SVDistribution", "BSDistribution", "BSCount", "BSSamples", "NoiseModel", "PostSelect",
    "BSLayeredDetector", "Detector"].map String.toList
+
+/-- the keyword under which the overload of `serialize` registered for a tag takes the
+    compression setting.  `serialize(dict)`, `serialize(list)` and `serialize_to_file` always
+    pass `compress=`; as found, the two detector overloads were declared with `do_compress`. -/
+def compressKeyword (asFound : Bool) (tag : Text) : String :=
+  if asFound && (tag = "Detector".toList || tag = "BSLayeredDetector".toList) then "do_compress"
+  else "compress"
+
+/-- `serialize(x, compress=…)` is accepted (no `TypeError`) -/
+def kwAccepted (asFound : Bool) (tag : Text) : Bool := compressKeyword asFound tag == "compress"
 
 /-! ## BSSamples: dictionary of distinct states + index list -/
 
